@@ -197,7 +197,7 @@ def _apply_op(m, op, operand=None):
         kind, payload = op[1], op[2]
         if kind == 'slice':
             ent = m.entries[slice(*payload)]
-        elif kind in ('list', 'tuple', 'ndarray'):
+        elif kind in ('list', 'tuple') or kind.startswith('ndarray'):
             ent = [m.entries[i] for i in resolve_index_form(payload, m.n)]
         elif kind in ('keylist', 'keytuple'):
             _need(m.listable and m.labelstate == 'unique',
